@@ -230,8 +230,8 @@ def opsOf (rs : List RLine) : List String := allOps.filter fun o => rs.any (·.o
 def mkArch (rsize : Nat) (rs : List RLine) : Arch :=
   { rsize := rsize
     r := neededBits (maxOf (regsOf rs) + 1)
-    n := portCount (insOf rs)
-    m := portCount (outsOf rs)
+    n := portCount (insOf rs) % 256      -- `uint8(inNum + 1)`
+    m := portCount (outsOf rs) % 256
     l := 0
     o := neededBits rs.length
     mode := .ha
@@ -296,17 +296,29 @@ def mapE {α β : Type} (f : α → Except Err β) : List α → Except Err (Lis
     | .error e, _ => .error e
     | _, .error e => .error e
 
+/-- entryPoints + matcherResolver of one section, under its name -/
+def secPrep (fix : Bool) (src : Source) (s : Section) : Except Err (String × List RLine) :=
+  match prepSection fix src.iomode s with
+  | .ok rs => .ok (s.name, rs)
+  | .error e => .error e
+
+/-- memComposer: the section a `cpdef` names -/
+def cpBody (ss : List (String × List RLine)) (c : CpDef) : Except Err (List RLine) :=
+  match findSection ss c.romcode with
+  | some rs => .ok rs
+  | none => .error .notfound
+
 /-- the model assembler.  `fix = false`: the tool as it is in the unchanged tree; `fix = true`: with
     the proposed `entry` repair applied (the harness tells the oracle which one it is talking to). -/
 def assemble (src : Source) (fix : Bool := false) : Except Err BM :=
   -- symbolTagger (1): duplicate labels, per section, the entry line still present
   if src.sections.any (fun s => hasDup (allLabels s.lines)) then .error .dupsymbol else
   -- entryPoints, then matcherResolver
-  match mapE (fun s => (prepSection fix src.iomode s).map fun rs => (s.name, rs)) src.sections with
+  match mapE (secPrep fix src) src.sections with
   | .error e => .error e
   | .ok ss =>
     -- memComposer: every cpdef names an existing section
-    match mapE (fun c => match findSection ss c.romcode with | some rs => .ok rs | none => .error .notfound) src.cps with
+    match mapE (cpBody ss) src.cps with
     | .error e => .error e
     | .ok bodies =>
       -- Assembler2BondMachine: register size, then the processors, then their programs
